@@ -3,3 +3,5 @@ import GBModel.Gauss1D
 import GBModel.Shell
 import GBModel.Spherical
 import GBModel.Assemble
+import GBModel.Eval
+import GBModel.OneElec
